@@ -1,6 +1,6 @@
 import re
 """Rules shared by several properties."""
-from qlib import astq
+from qlib import astq, dataflow
 from qlib.report import Rule
 
 
@@ -448,4 +448,648 @@ def rule_inline_if_ranges(ctx, m):
                 wide.append(x)
     r.ob(pf.q, "span fits the 16-bit fields", bool(wide) and bool(drops), "%s" % ("the span of the tag is compared with the 16-bit limit" if wide else
          "nothing compares the span of the tag with 65535 before it is stored in SizeT16 fields: the offsets of a longer tag are truncated"), where)
+    return r
+
+
+def rule_dispose_target(ctx, m, files=None, rid="O14-target"):
+    """O14-target: Memory::Dispose(&x) runs x's destructor in place.  The language runs the destructor of a parameter, of a local
+    object and of an ordinary data member a second time when its scope / owner ends, so the only objects that may be disposed in
+    place are (a) members of a union of *this (their lifetime is managed by hand), and (b) objects reached through a pointer into
+    raw storage (container elements).  The root of the address-of expression decides: a parameter, a reference parameter, a local
+    object or a non-union member is a double destruction (double free of the block it owns)."""
+    r = Rule(rid, "Memory::Dispose(&x): x is a union member of this object or an element reached through a storage pointer, never a parameter, local or ordinary member", floor=4)
+    for f in m.functions:
+        if f.inst or not f.cfg or (files and not any(f.file.endswith("/" + x) for x in files)):
+            continue
+        for c in astq.calls(f, "Dispose"):
+            a = f.call_args(c)
+            if len(a) != 1:
+                continue
+            x = f.strip(a[0])
+            an = f.nodes[x]
+            if not (an["k"] == "UnaryOperator" and an["op"] == "&"):
+                continue
+            ctx.note_fn(f)
+            cur = f.strip(an["ch"][0])
+            via_union = False
+            via_ptr = False
+            verdict = None
+            hops = 0
+            while hops < 12:
+                hops += 1
+                n = f.nodes[cur]
+                if n["k"] in ("MemberExpr", "CXXDependentScopeMemberExpr"):
+                    if n.get("anon") or "(anon" in (n.get("rec") or ""):
+                        via_union = True
+                    if n.get("arrow"):
+                        base = f.strip(n["ch"][0]) if n.get("ch") else -1
+                        if base >= 0 and f.nodes[base]["k"] != "CXXThisExpr":
+                            via_ptr = True
+                            break
+                    if not n.get("ch"):
+                        break
+                    cur = f.strip(n["ch"][0])
+                    continue
+                if n["k"] == "CXXThisExpr":
+                    verdict = "this"
+                    break
+                if n["k"] == "UnaryOperator" and n["op"] == "*":
+                    via_ptr = True
+                    break
+                if n["k"] == "ArraySubscriptExpr":
+                    via_ptr = True
+                    break
+                if n["k"] == "DeclRefExpr":
+                    verdict = n.get("dk")
+                    if n.get("tk") == "ptr":
+                        via_ptr = True
+                    break
+                break
+            what = f.text(an["ch"][0])
+            if via_ptr:
+                ok, why = True, "`%s` is reached through a pointer into storage: its lifetime is managed by the container" % what
+            elif verdict == "this" and via_union:
+                ok, why = True, "`%s` is a union member of this object: no destructor runs for it implicitly" % what
+            elif verdict == "this":
+                ok, why = False, "`%s` is an ordinary member: the destructor of the enclosing object destroys it a second time" % what
+            elif verdict in ("param", "var"):
+                ok, why = False, "`%s` is a %s of %s: its destructor runs again when %s (the block it owns is released twice)" % (
+                    what, "parameter" if verdict == "param" else "local object", f.name, "the caller's object dies" if verdict == "param" else "the scope ends")
+            else:
+                r.broke("%s: the object disposed by %s could not be classified" % (f.q, f.text(c)[:60]))
+                continue
+            r.ob(f.sig if len(m.fns(f.q, required=False)) > 1 else f.q, "Dispose(&%s)" % what, ok, why, f.loc(c))
+    return r
+
+
+def rule_overload_pairs(ctx, m, cls="Qentem::Value", rid="SB-overload", floor=3):
+    """SB-overload: the copying (const T &) and the moving (T &&) overload of one operation are two implementations of one
+    document operation and must make the same kind decisions: the kind predicates they apply to this value, to the source and to
+    the source's elements agree (a pair in which one overload forwards to the other is one implementation and is skipped).  Sibling
+    cross-check: the copying Merge that stops filtering Undefined elements disagrees with the moving one."""
+    import re
+    r = Rule(rid, "the const& and && overloads of one Value operation apply the same kind tests to this value, the source and its elements", floor=floor)
+    groups = {}
+    for f in m.functions:
+        if f.inst or not f.cfg or f.cls != cls or len(f.params) != 1 or not f.params[0].get("ref"):
+            continue
+        base = re.sub(r"\s*&&?$", "", f.params[0]["t"]).replace("const ", "").strip()
+        groups.setdefault((f.name, base), []).append(f)
+
+    def kind_tests(f):
+        p = f.params[0]
+        src = {p["d"]}
+        for x in astq.nodes_of(f, "DeclStmt"):
+            for d in f.nodes[x]["decls"]:
+                if "d" in d and d.get("init", -1) >= 0 and f.nodes[d["init"]].get("tk") != "ptr" and any(f.nodes[y].get("d") in src for y in f.walk(d["init"])):
+                    src.add(d["d"])
+        out = set()
+        for c in astq.calls(f):
+            nm = f.call_simple_name(c) or ""
+            if not re.match(r"^[iI]s[A-Z]\w*$", nm) or nm in ("IsEqual", "IsNotEmpty", "IsEmpty"):
+                continue
+            rc = f.call_receiver(c)
+            if rc is None or f.nodes[f.strip(rc)]["k"] == "CXXThisExpr":
+                who = "this"
+            elif f.nodes[f.strip(rc)].get("d") in src:
+                who = "source"
+            else:
+                who = "element"
+            par = f.parents()
+            up, neg = par.get(c), False
+            while up is not None and f.nodes[up]["k"] in ("ParenExpr", "ImplicitCastExpr", "UnaryOperator"):
+                if f.nodes[up]["k"] == "UnaryOperator":
+                    if f.nodes[up]["op"] != "!":
+                        break
+                    neg = not neg
+                up = par.get(up)
+            pol = "not " if neg else ""
+            out.add("%s.%s%s" % (who, pol, nm))
+        return out
+    for (name, base), fs in sorted(groups.items()):
+        if len(fs) != 2 or sorted(bool(f.params[0].get("rref")) for f in fs) != [False, True]:
+            continue
+        forwards = any(any(f.call_simple_name(c) == g.name.split("<")[0] or (f.call_simple_name(c) or "") == name for c in astq.calls(f)) for f in fs for g in fs if g is not f)
+        if name.startswith("operator") and not forwards:
+            sym = name[len("operator"):]
+            for f in fs:
+                for x in f.walk():
+                    n = f.nodes[x]
+                    if n.get("op") == sym and n.get("ch") and f.text(n["ch"][0]).replace("(", "").replace(")", "").replace(" ", "") == "*this":
+                        forwards = True
+        if forwards:
+            continue
+        a, b = (kind_tests(f) for f in sorted(fs, key=lambda f: bool(f.params[0].get("rref"))))
+        if not a and not b:
+            continue
+        for f in fs:
+            ctx.note_fn(f)
+        only_c, only_m = sorted(a - b), sorted(b - a)
+        ok = not only_c and not only_m
+        if not ok and any("ValueType::" in f.text(x) for f in fs for x in f.walk() if f.nodes[x]["k"] == "BinaryOperator" and f.nodes[x]["op"] in ("==", "!=")):
+            r.broke("%s::%s(%s): one overload tests kinds by comparing Type() with enumerators; the predicate sets are not comparable" % (cls, name, base))
+            continue
+        why = "both apply {%s}" % ", ".join(sorted(a)) if ok else "the copying overload alone tests {%s}; the moving overload alone tests {%s}: the two treat the same document differently" % (
+            ", ".join(only_c), ", ".join(only_m))
+        r.ob("%s::%s(%s)" % (cls, name, base), "const& against &&", ok, why, "Include/%s:%d" % (fs[0].file.split("/Include/")[-1], fs[0].line))
+    return r
+
+
+def rule_exponent_marker(ctx, m, fq="Qentem::Digit::stringToNumber", consumer="parseExponent"):
+    """PR-expmarker: where the number scanner looks at the unit under the cursor and finds an exponent marker (a switch arm
+    labelled 'e' / 'E'), the numeral continues with an exponent: every path from that arm to a return that reports a number must
+    pass through the exponent scanner (which moves the cursor past the exponent), whatever the mantissa was.  Abstract paths
+    from each such arm over the domain (value set of the unit under the cursor, "cursor is inside the buffer", literal values of
+    boolean locals, exponent scanner reached): conditions on those are evaluated, every other condition takes both edges; a write
+    to the cursor forgets the unit.  A returning path on which the unit is still known to be the marker and the exponent scanner
+    was not called leaves the exponent unread (the JSON parser then rejects 0e1, 0.0E-5)."""
+    r = Rule("PR-expmarker", "an exponent marker seen under the cursor is consumed by the exponent scanner before a number is returned", floor=4)
+    fs = m.fns(fq, required=False)
+    fs = [f for f in fs if not f.inst and f.cfg]
+    if not fs:
+        r.broke("%s not found" % fq)
+        return r
+    f = fs[0]
+    ctx.note_fn(f)
+    blocks = f.blocks()
+    cursor = [p["n"] for p in f.params if p.get("ref") and not p.get("pconst") and p.get("tk") in ("uint", "sint")]
+    buf = [p["n"] for p in f.params if p.get("ptr")]
+    if len(cursor) != 1 or len(buf) != 1:
+        r.broke("%s: expected one by-reference cursor and one buffer parameter" % fq)
+        return r
+    cursor, buf = cursor[0], buf[0]
+    bound = [p["n"] for p in f.params if not p.get("ref") and p.get("tk") in ("uint", "sint")]
+
+    def is_unit_read(x):
+        x = f.strip_casts(x)
+        n = f.nodes[x]
+        return n["k"] == "ArraySubscriptExpr" and f.nodes[f.strip_casts(n["ch"][0])].get("n") == buf and f.nodes[f.strip_casts(n["ch"][1])].get("n") == cursor
+
+    def cval(x):
+        x = f.strip_casts(x)
+        v = f.const_value(x)
+        if v is None:
+            v = m.eval_nodes(f.nodes, x)
+        return v
+    MARKERS = {ord("e"), ord("E")}
+    # instances: case arms labelled with a marker, in a switch over the unit under the cursor
+    inst = []
+    for b in f.cfg["blocks"]:
+        if b.get("termk") != "SwitchStmt":
+            continue
+        succ = dataflow.successors(f, b)
+        labs = [(s_, p_) for (s_, k_, p_) in succ if k_ == "case" and isinstance(p_, dict) and p_.get("case") in MARKERS]
+        if not labs:
+            continue
+        cond = f.strip_casts(b["cond"]) if "cond" in b else None
+        alias = None
+        ok = False
+        if cond is not None and is_unit_read(cond):
+            ok = True
+        elif cond is not None and f.nodes[cond]["k"] == "DeclRefExpr":
+            # the switched local holds the unit under the cursor if its last assignment before the switch is content[cursor]
+            var = f.nodes[cond]["d"]
+            seen_blocks = set()
+            cur_b = b
+            found = None
+            hops = 0
+            while cur_b is not None and found is None and hops < 6:
+                hops += 1
+                for e in reversed(cur_b["el"]):
+                    x = e.get("n")
+                    if not isinstance(x, int) or e.get("k"):
+                        continue
+                    n = f.nodes[x]
+                    if n["k"] == "BinaryOperator" and n["op"] == "=" and f.nodes[f.strip(n["ch"][0])].get("d") == var:
+                        found = is_unit_read(n["ch"][1])
+                        break
+                    if n["k"] == "DeclStmt" and any(d.get("d") == var for d in n["decls"]):
+                        d0 = [d for d in n["decls"] if d.get("d") == var][0]
+                        found = d0.get("init", -1) >= 0 and is_unit_read(d0["init"])
+                        break
+                    if (n["k"] == "UnaryOperator" and n["op"] in ("++", "--") or n["k"] == "CompoundAssignOperator") and f.nodes[f.strip(n["ch"][0])].get("n") == cursor:
+                        found = False
+                        break
+                if found is None:
+                    ps = [p for p in f.cfg["blocks"] if any(s_ == cur_b["id"] for (s_, _, _) in dataflow.successors(f, p))]
+                    cur_b = ps[0] if len(ps) == 1 and ps[0]["id"] not in seen_blocks else None
+                    if cur_b is not None:
+                        seen_blocks.add(cur_b["id"])
+            ok = bool(found)
+            alias = var if ok else None
+        if not ok:
+            continue
+        for (s_, lab) in labs:
+            inst.append((b, s_, lab, alias))
+    if not inst:
+        r.broke("%s: no switch over the unit under the cursor has an arm for the exponent markers" % fq)
+        return r
+
+    def evaluate(x, st):
+        """True/False/None"""
+        x = f.strip(x)
+        n = f.nodes[x]
+        S, inb, flags, alias = st["S"], st["inb"], st["flags"], st["alias"]
+        if n["k"] == "UnaryOperator" and n["op"] == "!":
+            v = evaluate(n["ch"][0], st)
+            return None if v is None else (not v)
+        if n["k"] == "DeclRefExpr" and n.get("tk") == "bool":
+            return flags.get(n.get("d"))
+        if n["k"] == "BinaryOperator" and n["op"] in ("&&", "||"):
+            a, b_ = evaluate(n["ch"][0], st), evaluate(n["ch"][1], st)
+            if n["op"] == "&&":
+                return False if (a is False or b_ is False) else (True if (a and b_) else None)
+            return True if (a or b_) else (False if (a is False and b_ is False) else None)
+        if n["k"] == "BinaryOperator" and n["op"] in ("<", "<=", ">", ">=", "==", "!="):
+            l_, r_ = n["ch"]
+            ln, rn = f.nodes[f.strip_casts(l_)], f.nodes[f.strip_casts(r_)]
+            if n["op"] == "<" and ln.get("n") == cursor and rn.get("n") in bound and inb:
+                return True
+            if n["op"] == ">" and rn.get("n") == cursor and ln.get("n") in bound and inb:
+                return True
+            for (a, b_, op) in ((l_, r_, n["op"]), (r_, l_, {"<": ">", "<=": ">=", ">": "<", ">=": "<=", "==": "==", "!=": "!="}[n["op"]])):
+                an = f.nodes[f.strip_casts(a)]
+                is_u = is_unit_read(a) or (alias is not None and an["k"] == "DeclRefExpr" and an.get("d") == alias)
+                k = cval(b_)
+                if is_u and S is not None and k is not None:
+                    import operator
+                    fn = {"<": operator.lt, "<=": operator.le, ">": operator.gt, ">=": operator.ge, "==": operator.eq, "!=": operator.ne}[op]
+                    res = set(fn(v, k) for v in S)
+                    return True if res == {True} else (False if res == {False} else None)
+        return None
+
+    def refine(x, truth, st):
+        """narrow S on the edge of a unit comparison"""
+        x = f.strip(x)
+        n = f.nodes[x]
+        if n["k"] == "BinaryOperator" and n["op"] in ("==", "!=") and st["S"] is not None:
+            for (a, b_) in (n["ch"], n["ch"][::-1]):
+                an = f.nodes[f.strip_casts(a)]
+                is_u = is_unit_read(a) or (st["alias"] is not None and an["k"] == "DeclRefExpr" and an.get("d") == st["alias"])
+                k = cval(b_)
+                if is_u and k is not None:
+                    eq = (n["op"] == "==") == truth
+                    st["S"] = frozenset(v for v in st["S"] if (v == k) == eq)
+        return st
+
+    def transfer(b, st):
+        """returns list of ('ret', node) events; mutates st"""
+        events = []
+        for e in b["el"]:
+            x = e.get("n")
+            if not isinstance(x, int) or e.get("k"):
+                continue
+            n = f.nodes[x]
+            k = n["k"]
+            if k in ("CallExpr", "CXXMemberCallExpr"):
+                nm = f.call_simple_name(x)
+                if nm == consumer:
+                    st["passed"] = True
+                if any(f.nodes[f.strip(a)].get("n") == cursor and f.nodes[f.strip(a)]["k"] == "DeclRefExpr" for a in f.call_args(x)):
+                    st["S"], st["inb"] = None, False
+            tgt = None
+            if k == "UnaryOperator" and n["op"] in ("++", "--"):
+                tgt = f.nodes[f.strip(n["ch"][0])]
+            elif k in ("CompoundAssignOperator",) or (k == "BinaryOperator" and n["op"] == "="):
+                tgt = f.nodes[f.strip(n["ch"][0])]
+            if tgt is not None and tgt["k"] == "DeclRefExpr":
+                if tgt.get("n") == cursor:
+                    st["S"], st["inb"] = None, False
+                elif tgt.get("d") == st["alias"]:
+                    if k == "BinaryOperator" and is_unit_read(n["ch"][1]):
+                        pass
+                    else:
+                        st["alias"] = None
+                elif k == "BinaryOperator" and is_unit_read(n["ch"][1]) and st["alias"] is None and tgt.get("dk") == "var":
+                    st["alias"] = tgt["d"]
+                if tgt.get("tk") == "bool" and tgt.get("dk") == "var":
+                    fl = dict(st["flags"])
+                    if k == "BinaryOperator":
+                        v = f.const_value(n["ch"][1])
+                        v = bool(v) if v is not None else evaluate(n["ch"][1], st)
+                        if v is None:
+                            fl.pop(tgt["d"], None)
+                        else:
+                            fl[tgt["d"]] = v
+                    else:
+                        fl.pop(tgt["d"], None)
+                    st["flags"] = fl
+            if k == "DeclStmt":
+                for d in n["decls"]:
+                    if d.get("tk") == "bool" and "d" in d and d.get("init", -1) >= 0:
+                        v = f.const_value(d["init"])
+                        v = bool(v) if v is not None else evaluate(d["init"], st)
+                        fl = dict(st["flags"])
+                        if v is None:
+                            fl.pop(d["d"], None)
+                        else:
+                            fl[d["d"]] = v
+                        st["flags"] = fl
+            if k == "ReturnStmt":
+                events.append(x)
+        return events
+
+    for (swb, start, lab, alias) in inst:
+        init = {"S": frozenset([lab["case"]]), "inb": True, "flags": {}, "alias": alias, "passed": False}
+        work = [(start, init)]
+        seen = set()
+        bad = None
+        nret = 0
+        steps = 0
+        while work and steps < 20000:
+            steps += 1
+            bid, st = work.pop()
+            key = (bid, st["S"], st["inb"], tuple(sorted(st["flags"].items())), st["alias"], st["passed"])
+            if key in seen:
+                continue
+            seen.add(key)
+            b = blocks[bid]
+            st = dict(st)
+            rets = transfer(b, st)
+            if rets:
+                nret += 1
+                x = rets[0]
+                txt = f.text(x)
+                if "NotANumber" not in txt and not st["passed"] and st["S"] is not None and st["S"] and st["S"] <= MARKERS:
+                    bad = (x, st)
+                    break
+                continue
+            succ = dataflow.successors(f, b)
+            if not succ:
+                continue
+            if succ[0][1] in ("true", "false"):
+                cond = succ[0][2]
+                v = evaluate(cond, st)
+                for (s_, kind, _) in succ:
+                    truth = kind == "true"
+                    if v is not None and v != truth:
+                        continue
+                    st2 = refine(cond, truth, dict(st))
+                    if st2["S"] is not None and not st2["S"]:
+                        continue
+                    work.append((s_, st2))
+            elif succ[0][1] in ("case", "default") or b.get("termk") == "SwitchStmt":
+                cnd = f.strip_casts(b["cond"]) if "cond" in b else None
+                on_unit = cnd is not None and (is_unit_read(cnd) or (st["alias"] is not None and f.nodes[cnd].get("d") == st["alias"]))
+                labels = [p_["case"] for (_, k_, p_) in succ if k_ == "case" and isinstance(p_, dict) and "case" in p_]
+                for (s_, kind, p_) in succ:
+                    st2 = dict(st)
+                    if on_unit and st["S"] is not None:
+                        if kind == "case" and isinstance(p_, dict) and "case" in p_:
+                            if p_["case"] not in st["S"]:
+                                continue
+                            st2["S"] = frozenset([p_["case"]])
+                        else:
+                            rest = frozenset(v for v in st["S"] if v not in labels)
+                            if not rest:
+                                continue
+                            st2["S"] = rest
+                    work.append((s_, st2))
+            else:
+                for (s_, kind, _) in succ:
+                    work.append((s_, dict(st)))
+        if steps >= 20000:
+            r.broke("%s: the abstract paths from the arm at %s were not exhausted" % (fq, f.loc(lab["n"]) if "n" in lab else "?"))
+            continue
+        where = f.loc(lab["n"]) if "n" in lab else f.loc(swb["cond"])
+        r.ob(f.q, "case %r under the cursor" % chr(lab["case"]), bad is None,
+             "%d returning path(s): each reports not-a-number or has called %s" % (nret, consumer) if bad is None else
+             "a path reaches `%s` at %s with %r still under the cursor and %s never called: the exponent is left unread (flags on that path: %s)" % (
+                 f.text(bad[0])[:50], f.loc(bad[0])[0] if isinstance(f.loc(bad[0]), tuple) else f.loc(bad[0]), chr(lab["case"]), consumer,
+                 ", ".join("%s=%s" % (next((d_["n"] for s2 in astq.nodes_of(f, "DeclStmt") for d_ in f.nodes[s2]["decls"] if d_.get("d") == k_), k_), v_) for k_, v_ in sorted(bad[1]["flags"].items())) or "-"), where)
+    return r
+
+
+def rule_sign_unit(ctx, m, files, rid="SIGN-unit", floor=10):
+    """SIGN-unit: Char_T is `char` (signed on the supported targets) in the UTF-8 build and an unsigned type in the wide builds, so
+    an ordering comparison of a raw code unit with a constant is answered differently for the units 0x80..0xFF in the two builds
+    unless the surrounding condition masks the difference (a two-sided range test does).  For every such comparison the smallest
+    enclosing boolean formula, under the if-conditions that dominate it, is evaluated three-valued twice for "a unit >= 0x80":
+    once as a negative value, once as a large positive one; other atoms are unknown.  The two results must be equal and
+    determined, or the dominating conditions must exclude such units in both readings."""
+    r = Rule(rid, "a raw code unit is ordered against a constant only where the result is the same for signed and unsigned units", floor=floor)
+    ORD = ("<", "<=", ">", ">=")
+
+    for f in m.functions:
+        if f.inst or not f.cfg or not any(f.file.endswith("/" + x) for x in files):
+            continue
+        par = f.parents()
+
+        def raw_unit(x):
+            """text key of a raw Char_T operand (no explicit conversion in between), else None"""
+            x = f.strip(x)
+            n = f.nodes[x]
+            if n["k"] in ("CXXFunctionalCastExpr", "CStyleCastExpr", "CXXStaticCastExpr", "CXXUnresolvedConstructExpr", "CXXTemporaryObjectExpr", "InitListExpr", "CallExpr"):
+                return None
+            t = (n.get("t") or "").replace("const ", "").strip()
+            if t != "Char_T":
+                return None
+            return f.text(x)
+
+        def const_of(x):
+            x = f.strip_casts(x)
+            v = f.const_value(x)
+            if v is None:
+                v = m.eval_nodes(f.nodes, x)
+            return v
+
+        def atom(x):
+            """(unit key, op, K) for an ordering/equality of a raw unit against a constant"""
+            n = f.nodes[x]
+            if n["k"] != "BinaryOperator" or n["op"] not in ORD + ("==", "!="):
+                return None
+            a, b = n["ch"]
+            for (l_, r_, op) in ((a, b, n["op"]), (b, a, {"<": ">", "<=": ">=", ">": "<", ">=": "<=", "==": "==", "!=": "!="}[n["op"]])):
+                u = raw_unit(l_)
+                k = const_of(r_)
+                if u is not None and k is not None and 0 <= k <= 127:
+                    return (u, op, k)
+            return None
+
+        def ev(x, unit, signed):
+            """True / False / a residual formula over the other atoms (nested tuples)"""
+            x = f.strip(x)
+            n = f.nodes[x]
+            if n["k"] == "UnaryOperator" and n["op"] == "!":
+                v = ev(n["ch"][0], unit, signed)
+                return (not v) if isinstance(v, bool) else ("not", v)
+            if n["k"] == "BinaryOperator" and n["op"] in ("&&", "||"):
+                a, b = ev(n["ch"][0], unit, signed), ev(n["ch"][1], unit, signed)
+                if n["op"] == "&&":
+                    if a is False or b is False:
+                        return False
+                    if a is True:
+                        return b
+                    if b is True:
+                        return a
+                    return ("and", a, b)
+                if a is True or b is True:
+                    return True
+                if a is False:
+                    return b
+                if b is False:
+                    return a
+                return ("or", a, b)
+            at = atom(x)
+            if at and at[0] == unit:
+                _, op, k = at
+                # a unit >= 0x80: below every constant when read as signed, above every constant when read as unsigned
+                if op in ("<", "<="):
+                    return bool(signed)
+                if op in (">", ">="):
+                    return not signed
+                return op == "!="
+            return ("atom", f.text(x))
+
+        for x in f.walk():
+            at = atom(x)
+            if not at or at[1] not in ORD:
+                continue
+            unit = at[0]
+            # smallest enclosing boolean formula
+            top = x
+            while True:
+                p_ = par.get(top)
+                if p_ is None:
+                    break
+                pn = f.nodes[p_]
+                if pn["k"] in ("ParenExpr", "ImplicitCastExpr") or (pn["k"] == "UnaryOperator" and pn["op"] == "!") or (pn["k"] == "BinaryOperator" and pn["op"] in ("&&", "||")):
+                    top = p_
+                    continue
+                break
+            # dominating if-conditions (then-branches; else-branches negated); a condition says nothing about the unit once
+            # the variables the unit is read from are written inside the guarded branch
+            unit_vars = set()
+            for side in f.nodes[x]["ch"]:
+                if raw_unit(side) == unit:
+                    unit_vars = set(f.nodes[y].get("d") for y in f.walk(side) if f.nodes[y]["k"] == "DeclRefExpr")
+
+            loops_over_x = set()
+            up_ = par.get(x)
+            while up_ is not None:
+                if f.nodes[up_]["k"] in ("WhileStmt", "DoStmt", "ForStmt"):
+                    loops_over_x.add(up_)
+                up_ = par.get(up_)
+
+            def mutated_in(root, dvars):
+                inside = set(f.walk(root))
+                loop_nodes = set()
+                for lp in loops_over_x:
+                    if lp in inside:
+                        loop_nodes |= set(f.walk(lp))
+                for y in f.walk(root):
+                    if not (y < x or y in loop_nodes):
+                        continue
+                    yn = f.nodes[y]
+                    tgt = None
+                    if yn["k"] == "UnaryOperator" and yn["op"] in ("++", "--"):
+                        tgt = yn["ch"][0]
+                    elif yn["k"] == "CompoundAssignOperator" or (yn["k"] == "BinaryOperator" and yn["op"] == "="):
+                        tgt = yn["ch"][0]
+                    if tgt is not None and f.nodes[f.strip(tgt)].get("d") in dvars:
+                        return True
+                    if yn["k"] in ("CallExpr", "CXXMemberCallExpr") and any(f.nodes[f.strip(a)]["k"] == "DeclRefExpr" and f.nodes[f.strip(a)].get("d") in dvars and
+                                                                            f.nodes[f.strip(a)].get("tk") != "ptr" for a in f.call_args(y)):
+                        return True
+                return False
+            guards = []
+            cur = top
+            while True:
+                p_ = par.get(cur)
+                if p_ is None:
+                    break
+                pn = f.nodes[p_]
+                if pn["k"] == "IfStmt" and pn.get("cond", -1) >= 0 and cur != pn["cond"] and not mutated_in(cur, unit_vars):
+                    if cur == pn.get("then"):
+                        guards.append((pn["cond"], True))
+                    elif cur == pn.get("else"):
+                        guards.append((pn["cond"], False))
+                cur = p_
+
+            def guard_val(signed):
+                out = True
+                for (c, pol) in guards:
+                    v = ev(c, unit, signed)
+                    if isinstance(v, bool):
+                        v = v if pol else (not v)
+                        if v is False:
+                            return False
+                    else:
+                        out = None
+                return out
+            gs, gu = guard_val(True), guard_val(False)
+            vs, vu = ev(top, unit, True), ev(top, unit, False)
+            if vs == vu:
+                ok, why = True, "`%s` %s for a unit >= 0x80 whether it is read as signed or unsigned" % (
+                    f.text(top)[:70], ("is " + str(vs).lower()) if isinstance(vs, bool) else "depends on the same other operands in the same way")
+            elif gs is False and gu is False:
+                ok, why = True, "the dominating conditions exclude units >= 0x80 in both readings"
+            else:
+                ok, why = False, "`%s` is %s for a unit >= 0x80 when Char_T is signed (char) and %s when it is unsigned (char16_t, char32_t): the UTF-8 build and the wide builds disagree on non-ASCII text" % (
+                    f.text(top)[:70], "true" if vs is True else ("false" if vs is False else "decided by the other operands"), "true" if vu is True else ("false" if vu is False else "decided by the other operands"))
+            ctx.note_fn(f)
+            r.ob(f.sig if len(m.fns(f.q, required=False)) > 1 else f.q, f.text(x)[:60], ok, why, f.loc(x))
+    return r
+
+
+def rule_accumulate(ctx, m, files=("Digit.hpp",), rid="PR-accumulate"):
+    """PR-accumulate: in a digit loop every digit that is consumed is folded into the accumulator (acc *= 10; acc += digit):
+    between the test that recognises the unit as a digit and the accumulation there is no further condition, except a bound on
+    the accumulator itself (a saturating overflow guard).  A guard on anything else -- the number of digits seen, the cursor --
+    drops digits that carry value (leading zeros use up a digit budget: 1e00005 read as 1e0)."""
+    r = Rule(rid, "a recognised digit is accumulated unconditionally (or under a bound on the accumulator only)", floor=4)
+    for f in m.functions:
+        if f.inst or not f.cfg or not any(f.file.endswith("/" + x) for x in files):
+            continue
+        par = f.parents()
+        for x in f.walk():
+            n = f.nodes[x]
+            if n["k"] != "CompoundAssignOperator" or n["op"] not in ("*=", "<<="):
+                continue
+            k = f.const_value(f.strip_casts(n["ch"][1]))
+            if k is None:
+                k = m.eval_nodes(f.nodes, f.strip_casts(n["ch"][1]))
+            if (n["op"], k) not in (("*=", 10), ("<<=", 4)):
+                continue
+            acc = f.text(n["ch"][0])
+            acc_decls = set(f.nodes[y].get("d") for y in f.walk(n["ch"][0]) if f.nodes[y]["k"] in ("DeclRefExpr", "MemberExpr"))
+            between = []
+            digit_test = None
+            cur = x
+            while True:
+                p_ = par.get(cur)
+                if p_ is None:
+                    break
+                pn = f.nodes[p_]
+                if pn["k"] in ("WhileStmt", "DoStmt", "ForStmt") and digit_test is None and False:
+                    break
+                if pn["k"] == "IfStmt" and cur in (pn.get("then"), pn.get("else")):
+                    cond = pn["cond"]
+                    is_digit_test = False
+                    for y in f.walk(cond):
+                        yn = f.nodes[y]
+                        if yn["k"] == "BinaryOperator" and yn["op"] in ("<", "<=", ">", ">="):
+                            for side in yn["ch"]:
+                                t = (f.nodes[f.strip(side)].get("t") or "").replace("const ", "").strip()
+                                if t == "Char_T":
+                                    is_digit_test = True
+                    if is_digit_test:
+                        digit_test = p_
+                        break
+                    between.append(p_)
+                cur = p_
+            if digit_test is None:
+                continue
+            ctx.note_fn(f)
+            bad = None
+            for g in between:
+                cond = f.nodes[g]["cond"]
+                others = [f.text(y) for y in f.walk(cond) if f.nodes[y]["k"] == "DeclRefExpr" and f.nodes[y].get("d") not in acc_decls and f.nodes[y].get("dk") in ("var", "param")]
+                if others:
+                    bad = (g, others)
+                    break
+            r.ob(f.sig if len(m.fns(f.q, required=False)) > 1 else f.q, "%s" % f.text(x)[:50], bad is None,
+                 "every unit recognised as a digit at %s reaches the accumulation" % (f.loc(digit_test)[0] if isinstance(f.loc(digit_test), tuple) else f.loc(digit_test)) if bad is None else
+                 "the accumulation of a recognised digit is skipped when `%s` is false, a condition on %s and not on `%s`: digits that carry value are consumed without being counted" % (
+                     f.text(f.nodes[bad[0]]["cond"])[:60], ", ".join(sorted(set(bad[1]))), acc), f.loc(x))
     return r
